@@ -375,6 +375,7 @@ LSP_FIX_PROGRAMS = _json.load(open(os.path.join(os.path.dirname(os.path.abspath(
     'fun q(): String {\n  let s = "\U0001F600\n  \u4e16"\n  s\n}\nq()\n',
     'fun r(): Int {\n  return (1 +\n    2)\n}\nr()\n',
     'fun rb(x: Bool, y: Bool): Bool {\n  let a = x || y ||\n    x\n  let b = (x && y) &&\n      y && x\n  a || b || a\n}\nrb(True, False)\n',
+    'fun f<T\n>(x: Int): Int { x }\nf(1)\n', 'fun g<A,\n  B\n  >(x: Int): Int { x }\ng(1)\n', 'fun h< T >(x: Int): Int { x }\nh(1)\n', 'method m< U , V >(this: Int): Int { this }\n1.m()\n',
     'fun rb2(is_friend: Bool, is_morning: Bool): Bool {\n  let s = "\U0001F600"\n  is_friend || is_morning || is_friend\n}\nrb2(True, False)\n',
 ]
 LSP_FIX_BOUND = ("%d programs (the check --fix corpus plus multi-line and multi-byte values in every position a lint builds a fix from): the quick-fix edits the language server offers, applied as LSP defines ranges, must give the text `check --fix --stdout` gives, and every range must lie inside the document" % len(LSP_FIX_PROGRAMS))
